@@ -14,9 +14,20 @@
 import Grip.Drv.Common
 import Grip.Drv.StmtJson
 import Grip.Model.Eval
+import Grip.Model.EvalN
 
 namespace Grip.Drv.C01
 open Lean Grip Grip.Proto Grip.Drv.StmtJson
+
+def canonRowN : EvalN.RowN → Json
+  | .plain r => canonRow r
+  | .sel s => Json.mkObj [("sel", Json.mkObj (s.map fun (k, ty, e) =>
+      (k, if ty == DataType.edge then Json.mkObj [("e", canonEdge e)]
+          else Json.mkObj [("v", canonVertex e)])))]
+
+def canonRowsN (rows : List EvalN.RowN) : Json :=
+  let js := rows.map fun r => let j := canonRowN r; (Json.compress j, j)
+  .arr ((js.mergeSort (fun a b => a.1 ≤ b.1)).map (·.2)).toArray
 
 def step (g : AGraph) (j : Json) : AGraph × Json :=
   match str? j "op" with
@@ -28,13 +39,23 @@ def step (g : AGraph) (j : Json) : AGraph × Json :=
     match (arr? j "q").bind stmtsOf with
     | none => (g, Json.mkObj [("skip", .bool true)])
     | some stmts =>
-      match typeCheck stmts, run Drv.numOf g stmts with
-      | .ok st, .ok rows =>
+      -- traversals with *Null moves are answered by the refined plan semantics (kvgraph's notion of
+      -- "the adjacency channel found nothing"), which equals `run` on every other traversal
+      let answer (st : TState) (n : Nat) (rows : Json) : AGraph × Json :=
         let t := ("t", Json.str st.last.toString)
         match str? j "cmp" with
-        | some "nsub" => (g, Json.mkObj [t, ("n", .num ⟨rows.length, 0⟩), ("sub", .bool true)])
+        | some "nsub" => (g, Json.mkObj [t, ("n", .num ⟨n, 0⟩), ("sub", .bool true)])
         | some "sub" => (g, Json.mkObj [t, ("sub", .bool true)])
-        | _ => (g, Json.mkObj [t, ("rows", canonRows rows)])
+        | _ => (g, Json.mkObj [t, ("rows", rows)])
+      if stmts.any C02.isNullMove then
+        -- traversals with *Null moves: the semantics of Grip.EvalN (kvgraph's notion of "the
+        -- adjacency channel found nothing"; placeholder marks; Convert's reload of selections)
+        match typeCheck stmts, EvalN.runN Drv.numOf g stmts with
+        | .ok st, .ok rows => answer st rows.length (canonRowsN rows)
+        | _, _ => (g, Json.mkObj [("err", .str "compile")])
+      else
+      match typeCheck stmts, run Drv.numOf g stmts with
+      | .ok st, .ok rows => answer st rows.length (canonRows rows)
       | _, _ => (g, Json.mkObj [("err", .str "compile")])
   | some "build" =>
     -- the client-side query builder is persistent: a query derived from a prefix is the prefix's
